@@ -477,6 +477,8 @@ class MementoFunction(MementoFunctionBase):
                         version,
                     )
                 )
+        elif self._fn_reference is None:
+            self._update_fn_reference()
 
         # Update the cache entry
         MementoFunction._global_fn_version_cache[
